@@ -228,6 +228,44 @@ func c17(c *Ctx) {
 			}
 			return false
 		}
+		// the callers compare the error by identity, so session() must hand GetAuth's error on unwrapped
+		{
+			info := sess.Info()
+			g := c.Graph(sess)
+			isGetAuth := func(fn *types.Func, _ *ast.CallExpr) bool { return fn.Name() == "GetAuth" }
+			for _, call := range callsIn(sess, isGetAuth) {
+				v := g.VertexOf(call)
+				as, ok := g.V[v].Node.(*ast.AssignStmt)
+				if !ok || len(as.Lhs) != 2 {
+					continue
+				}
+				eid, ok := as.Lhs[1].(*ast.Ident)
+				if !ok {
+					continue
+				}
+				eobj := astx.Obj(info, eid)
+				for _, rv := range g.Returns() {
+					rs := rv.Node.(*ast.ReturnStmt)
+					if len(rs.Results) != 2 {
+						continue
+					}
+					onErr := false
+					for _, f := range g.FactsAt(rv.ID) {
+						if x, isNil, isCmp := nilCompare(info, f); isCmp && !isNil {
+							if id, ok := ast.Unparen(x).(*ast.Ident); ok && astx.Obj(info, id) == eobj && g.DominatedBy(rv.ID, func(x *cfgx.Vertex) bool { return x.ID == v }) {
+								onErr = true
+							}
+						}
+					}
+					if !onErr {
+						continue
+					}
+					id, isID := ast.Unparen(rs.Results[1]).(*ast.Ident)
+					r.Check(isID && astx.Obj(info, id) == eobj, "C17.Y2", sess.Name(), "look-up error is handed on unwrapped", c.P.Pos(rs.Pos()), "return …, err",
+						"api.session wraps or replaces the error of GetAuth while sessionOrProxy and handleGetMessages compare it with == ErrSessionNotYetSeen: the comparison never matches, a lagging follower answers 404 for a live session and stops proxying to the leader")
+				}
+			}
+		}
 		if sop := c.MustFunc("api.(*HTTP).sessionOrProxy"); sop != nil {
 			info := sop.Info()
 			g := c.Graph(sop)
